@@ -691,6 +691,7 @@ func checkC03(c *Ctx) {
 	if !reuseCheck(c, c03ReuseSources, c03ReuseJudge, "c03reuse") {
 		return
 	}
+	c03Extras(c)
 	c.Set("rule", "case = corpus file x formatting perturbation, decorated and printed by the real code; oracles: output parses, token stream equals gofmt(input)'s, comment texts conserved in order; non-trivial = not the identity perturbation; distinct by path+perturbation. Perturbed declaration snippets are also validated by TLC against Link.tla (NoPanic, AllAttached, RoundTrip).")
 }
 
@@ -835,5 +836,53 @@ func init() {
 			return ""
 		}
 		return reuseReplayWith(b, c03ReuseSources, c03ReuseJudge)
+	}
+}
+
+// c03Extras: the tokens and comments that survive are those of the TREE. A declaration is taken out of
+// the decorated file (names elsewhere in the file still point at it through their objects) and the
+// file is printed twice, by a plain Restorer and by one that restores the object graph too (Extras): the
+// same token sequence and the same comments, none of the removed declaration's.
+func c03Extras(c *Ctx) {
+	srcs := []string{
+		"package p\n// helper is going away\nfunc helper(a int /* arg */) int {\n  // inside helper\n  return a /* one */\n} // after helper\n\n// caller stays\nfunc caller() int {\n  return helper(1) // call\n}\n",
+		"package p\n\n// limit doc\nconst limit = 10 // limit trail\n\n// T doc\ntype T struct {\n  next *T // next\n  n [limit]int\n}\n\n// v doc\nvar v = T{} /* v trail */\n\nfunc main() {\n  /* use */ _ = v.next\n  var t T // local\n  _ = t\n}\n",
+		"package p\n\nfunc a() { b() } // a\n\n/* b lead */\nfunc b() { // open\n  a()\n  // last in b\n}\n\nvar _ = a\n",
+	}
+	for si, src := range srcs {
+		f0, err := decorator.Parse(src)
+		if err != nil {
+			c.Infra("c03Extras source does not parse: " + err.Error())
+			return
+		}
+		for k := range f0.Decls {
+			key := fmt.Sprintf("extras-removed|src%d|decl%d", si, k)
+			c.Eval(key, true)
+			f, _ := decorator.Parse(src)
+			f.Decls = append(f.Decls[:k:k], f.Decls[k+1:]...)
+			var plain, extras bytes.Buffer
+			var e1, e2 error
+			msg := guard(func() {
+				e1 = decorator.NewRestorer().Fprint(&plain, f)
+				r := decorator.NewRestorer()
+				r.Extras = true
+				e2 = r.Fprint(&extras, f)
+			})
+			if msg != "" || e1 != nil || e2 != nil {
+				c.Fail(Finding{Sig: "print-fails", Input: key, What: fmt.Sprintf("a file with one declaration removed does not print: %s %v %v", msg, e1, e2), Replay: obj{"kind": "none"}})
+				continue
+			}
+			wt, wc, err1 := tokenStream(plain.Bytes())
+			gt, gc, err2 := tokenStream(extras.Bytes())
+			if err1 != nil || err2 != nil {
+				c.Fail(Finding{Sig: "output-does-not-parse", Input: key, What: fmt.Sprintf("does not scan: %v %v", err1, err2), Replay: obj{"kind": "none"}})
+				continue
+			}
+			if ok, at := sameToks(wt, gt); !ok {
+				c.Fail(Finding{Sig: "tokens-differ", Input: key, What: fmt.Sprintf("printed with Extras the edited file has another token sequence (token %d): %s", at, diffAt(plain.Bytes(), extras.Bytes())), Replay: obj{"kind": "none"}})
+			} else if strings.Join(wc, "\x00") != strings.Join(gc, "\x00") {
+				c.Fail(Finding{Sig: "comments-differ", Input: key, What: "printed with Extras the edited file has other comments than the tree holds: " + diffAt(plain.Bytes(), extras.Bytes()), Replay: obj{"kind": "none"}})
+			}
+		}
 	}
 }
